@@ -12,6 +12,7 @@ import (
 	webp "github.com/deepteams/webp"
 	"github.com/deepteams/webp/animation"
 	"github.com/deepteams/webp/mux"
+	"github.com/deepteams/webp/verifapi"
 )
 
 func init() {
@@ -19,6 +20,67 @@ func init() {
 	suites["c16"] = suiteC16
 	suites["c17"] = suiteC17
 	replayers["c17"] = replayC17
+	replayers["c16"] = replayC16
+	for _, op := range []string{"roundtrip-farmatch", "roundtrip-threshold", "roundtrip-colors"} {
+		replayers[op] = replayRoundtripLeg
+	}
+}
+
+// replayRoundtripLeg regenerates one case of the deterministic legs of suite roundtrip from (seed, tier, index).
+func replayRoundtripLeg(in map[string]any) int {
+	num := func(k string) int { v, _ := in[k].(float64); return int(v) }
+	tier, _ := in["tier"].(string)
+	rep := NewReport("roundtrip", tier, uint64(num("seed")))
+	st, pm := guard(func() string {
+		switch in["op"] {
+		case "roundtrip-farmatch":
+			e2eFarRun(rep, num("k"))
+		case "roundtrip-threshold":
+			e2eMegaRun(rep, num("k"))
+		default:
+			e2eColorRun(rep, num("j"), num("t"))
+		}
+		return "ok"
+	})
+	if st == "panic" {
+		fmt.Println("replay: bad case index:", pm)
+		return 2
+	}
+	for _, f := range rep.Findings {
+		fmt.Printf("%s %s %s: %s\n", f.Kind, f.Property, f.Signature, f.Detail)
+	}
+	if len(rep.Findings) > 0 {
+		return 1
+	}
+	fmt.Println("round trip ok:", in["desc"])
+	return 0
+}
+
+// replayC16 prints the header views of one file next to what Decode returns and re-runs the C16 comparisons.
+func replayC16(in map[string]any) int {
+	hs, _ := in["hex"].(string)
+	data := unhx(hs)
+	rep := NewReport("c16", "replay", 0)
+	img, derr := webp.Decode(bytes.NewReader(data))
+	cfg, cerr := webp.DecodeConfig(bytes.NewReader(data))
+	fmt.Printf("Decode: err=%v", derr)
+	if derr == nil {
+		fmt.Printf(" %s %v", imgModelName(img), img.Bounds())
+	}
+	fmt.Printf("\nDecodeConfig: err=%v %s %dx%d\nGetFeatures: %s\n", cerr, cmName(cfg.ColorModel), cfg.Width, cfg.Height, goFeatures(data))
+	if derr == nil && !isAnimatedFile(data) {
+		if cerr != nil || cfg.ColorModel != img.ColorModel() || cfg.Width != img.Bounds().Dx() || cfg.Height != img.Bounds().Dy() {
+			rep.Add(Finding{Kind: "property", Property: "C16", Signature: "config:mismatch", Detail: "DecodeConfig does not describe the decoded image"})
+		}
+	}
+	viewsAgree(rep, data, "replay")
+	for _, f := range rep.Findings {
+		fmt.Printf("%s %s %s: %s\n", f.Kind, f.Property, f.Signature, f.Detail)
+	}
+	if len(rep.Findings) > 0 {
+		return 1
+	}
+	return 0
 }
 
 // replayC17 re-runs the three entry points (both reader flavours) on one prefix of the file of a finding.
@@ -231,7 +293,7 @@ func expectedNRGBA(img image.Image) *image.NRGBA {
 
 // suiteRoundtrip: C01 end to end — webp.Encode(Lossless) then webp.Decode reproduces every pixel.
 func suiteRoundtrip(rep *Report) error {
-	rep.Rule = "image class x alpha class x size (1x1, 1xN, Nx1, around 2^k +-1, ragged; every 97th case >= 100000 pixels with prime/odd height - 256x401, 317x331, 400x251, 1000x101, 101x1000, 7x14293 ... - decoded under the ambient GOMAXPROCS and under two of {2,3,5,7} (thorough: all four); plus a leg of sizes just below/on/above the numeric thresholds of the code - thresholds.go - with flat/gradient/sparse content) x Go image type {NRGBA,RGBA,Gray,Paletted,NRGBA64,generic,subimage,RGBA64} x Quality {0,10,24,25,49,50,74,75,89,90,100} x Method 0..6 x Exact x metadata, plus a sweep of one non-opaque pixel at raster index 0 / 1 / each of the last 8 positions (sizes with pixel count mod 4 = 0..3) and two-colour pictures with controlled runs of unused symbols (2/3, 10/11, 138/139/140, 130..145) in the code-length vector; decoded pixels compared with NRGBAModel.Convert(src.At) (alpha-0 pixels may be transparent black unless Exact); non-trivial = image has >= 2 distinct pixels; distinct = hash of (pixels, options)"
+	rep.Rule = "image class x alpha class x size (1x1, 1xN, Nx1, around 2^k +-1, ragged; every 97th case >= 100000 pixels with prime/odd height - 256x401, 317x331, 400x251, 1000x101, 101x1000, 7x14293 ... - decoded under the ambient GOMAXPROCS and under two of {2,3,5,7} (thorough: all four); plus a leg of sizes just below/on/above the numeric thresholds of the code - thresholds.go - with flat/gradient/sparse content, one of them per run on the 2^20-pixel threshold at Method 0; pictures with exactly n colours for n around 2 / 4 / 16 / 192 / 256; and the far-match class: pictures of more than 2^20 pixels - 1024x1100, 2048x560, 1100x1024 - whose noise band over 17..256 colours repeats with period D = 2^20-121 / -120 (last legal backward distance) / -119 / -60 / -1 / 2^20, Quality 76 / 90 / 100, Method 0..2, two per run, thorough: the whole grid plus width 4096 at Quality 51..75 and full-colour noise) x Go image type {NRGBA,RGBA,Gray,Paletted,NRGBA64,generic,subimage,RGBA64} x Quality {0,10,24,25,49,50,74,75,89,90,100} x Method 0..6 x Exact x metadata, plus a sweep of one non-opaque pixel at raster index 0 / 1 / each of the last 8 positions (sizes with pixel count mod 4 = 0..3) and two-colour pictures with controlled runs of unused symbols (2/3, 10/11, 138/139/140, 130..145) in the code-length vector; decoded pixels compared with NRGBAModel.Convert(src.At) (alpha-0 pixels may be transparent black unless Exact); non-trivial = image has >= 2 distinct pixels; distinct = hash of (pixels, options)"
 	n := 700
 	if rep.Tier == "thorough" {
 		n = 20000
@@ -392,7 +454,239 @@ func suiteRoundtrip(rep *Report) error {
 			rep.Sample(map[string]any{"case": desc, "bytes": len(file)})
 		}
 	}
+	e2eColorCountLeg(rep)
+	e2eFarMatchLeg(rep)
 	return nil
+}
+
+// e2eRoundtripNRGBA: one lossless Encode / Decode of an *image.NRGBA at the origin, compared on Pix directly
+// (pictures of a million pixels: no per-pixel At()). Encode runs under guard(): a panic is a C01 finding.
+// `in` describes the case for the replayer; procs > 0 decodes once more under that GOMAXPROCS.
+func e2eRoundtripNRGBA(rep *Report, src *image.NRGBA, o *webp.EncoderOptions, desc string, in map[string]any, procs int) int {
+	var file []byte
+	var eerr error
+	if st, pm := guard(func() string { file, eerr = encodeBytes(src, o); return "ok" }); st == "panic" {
+		rep.Add(Finding{Kind: "property", Property: "C01", Signature: "roundtrip:encode-panic", Detail: desc + ": Encode panicked: " + pm, Input: in})
+		return 0
+	}
+	if eerr != nil {
+		rep.Add(Finding{Kind: "property", Property: "C01", Signature: "roundtrip:encode-error", Detail: desc + ": " + eerr.Error(), Input: in})
+		return 0
+	}
+	check := func(tag string) {
+		var dec image.Image
+		var derr error
+		if st, pm := guard(func() string { dec, derr = webp.Decode(bytes.NewReader(file)); return "ok" }); st == "panic" {
+			derr = fmt.Errorf("panic: %s", pm)
+		}
+		if derr != nil {
+			rep.Add(Finding{Kind: "property", Property: "C01", Signature: "roundtrip:decode-error", Detail: desc + tag + ": Encode succeeded (" + fmt.Sprint(len(file)) + " bytes), Decode: " + derr.Error(), Input: in})
+			return
+		}
+		got, ok := dec.(*image.NRGBA)
+		if !ok {
+			got = toNRGBA(dec)
+		}
+		if got.Rect == src.Rect && got.Stride == src.Stride && bytes.Equal(got.Pix, src.Pix) {
+			return
+		}
+		if same, why := nrgbaEqual(src, got, !o.Exact); !same {
+			rep.Add(Finding{Kind: "property", Property: "C01", Signature: "roundtrip:pixels:NRGBA" + fmt.Sprintf(":exact=%v", o.Exact), Detail: desc + tag + ": " + why, Input: in})
+		}
+	}
+	check("")
+	if procs > 0 {
+		old := runtime.GOMAXPROCS(procs)
+		check(fmt.Sprintf(" (decoded with GOMAXPROCS=%d)", procs))
+		runtime.GOMAXPROCS(old)
+	}
+	return len(file)
+}
+
+// e2eColorCountLeg: pictures with EXACTLY n colours for n just below / on / above the colour-count thresholds of
+// the lossless encoder (2 / 4 / 16: 8 / 4 / 2 palette indices per byte; 256 / 257: palette vs no palette; 192),
+// every colour occurring, short runs; a few per run (all in the thorough tier).
+func e2eColorCountLeg(rep *Report) {
+	k := 5
+	if rep.Tier == "thorough" {
+		k = 1 << 20
+	}
+	reps := 1
+	if rep.Tier == "thorough" {
+		reps = 12
+	}
+	for j := range DrawCountCases(rep.Seed, 0x0101, k, "colors", 2, 300) {
+		for t := 0; t < reps; t++ {
+			e2eColorRun(rep, j, t)
+		}
+	}
+}
+
+// e2eColorRun runs repetition t of colour-count case j.
+func e2eColorRun(rep *Report, j, t int) {
+	k := 5
+	if rep.Tier == "thorough" {
+		k = 1 << 20
+	}
+	cc := DrawCountCases(rep.Seed, 0x0101, k, "colors", 2, 300)[j]
+	r := NewRNG(rep.Seed, 0x01C0_0000+uint64(j*64+t))
+	w, h := 17+r.Intn(30), 17+r.Intn(30)
+	if r.Chance(1, 4) {
+		w, h = 300+r.Intn(40), 1+r.Intn(3) // one to three long rows (w >= 300 > 257)
+	}
+	img := GenColorCountImage(r, w, h, cc.N)
+	o := &webp.EncoderOptions{Lossless: true, Quality: []float32{0, 25, 50, 75, 90, 100}[r.Intn(6)], Method: r.Intn(7), Exact: r.Bool()}
+	desc := fmt.Sprintf("%dx%d/exactly-%d-colours %s q=%v m=%d exact=%v", w, h, cc.N, cc.String(), o.Quality, o.Method, o.Exact)
+	in := map[string]any{"op": "roundtrip-colors", "seed": rep.Seed, "tier": rep.Tier, "j": j, "t": t, "w": w, "h": h, "colors": cc.N, "q": o.Quality, "m": o.Method, "exact": o.Exact, "desc": desc}
+	e2eRoundtripNRGBA(rep, img, o, desc, in, 0)
+	CountCount(rep, cc)
+	rep.Count("class:exact-colours")
+	rep.Eval(cc.N >= 2, append([]byte(desc), img.Pix...))
+}
+
+// e2eFarMatchImage: a w x h opaque picture with pixel[i] = pixel[i-D] for every raster index i >= D. The first T
+// pixels are noise over ncol colours (17..256 colours: a palette without pixel packing, so one pixel stays one
+// symbol in the backward-reference stage; ncol = 0: full-colour noise), the pixels up to D are filler rows of one
+// colour each (cheap: runs, matches one pixel / one row back), and from index D on the picture repeats itself, so
+// the ONLY match of the repeated noise lies exactly D pixels back.
+func e2eFarMatchImage(r *RNG, w, h, D, T, ncol int) *image.NRGBA {
+	img := image.NewNRGBA(image.Rect(0, 0, w, h))
+	base := uint32(r.Next())
+	col := func(k uint32) (byte, byte, byte) {
+		v := base + k*0x010305
+		return byte(v), byte(v >> 8), byte(v >> 16)
+	}
+	n := w * h
+	pix := img.Pix
+	for i := 0; i < n; i++ {
+		o := 4 * i
+		if i >= D {
+			copy(pix[o:o+4], pix[4*(i-D):4*(i-D)+4])
+			continue
+		}
+		var a, b, c byte
+		switch {
+		case i < T && ncol > 0:
+			a, b, c = col(uint32(r.Next()>>20) % uint32(ncol))
+		case i < T:
+			v := r.Next()
+			a, b, c = byte(v), byte(v>>8), byte(v>>16)
+		case ncol > 0:
+			a, b, c = col(uint32((i/w)*7+3) % uint32(ncol))
+		default:
+			v := uint32(i/w) * 0x9E3779B1
+			a, b, c = byte(v), byte(v>>8), byte(v>>16)
+		}
+		pix[o], pix[o+1], pix[o+2], pix[o+3] = a, b, c, 255
+	}
+	return img
+}
+
+type e2eFarCase struct {
+	w, h, D, T, ncol int
+	q                float32
+	m                int
+}
+
+// e2eWindow is the largest backward distance of the format's encoder side: 2^20 - 120 (the 120 short plane codes
+// are mapped in front of the plain distances, and distance + 120 must stay within the 40 distance prefix codes).
+const e2eWindow = 1<<20 - 120
+
+// e2eFarMatchLeg: pictures of MORE than 2^20 pixels whose content repeats about 2^20 pixels back, Quality > 75
+// (the encoder searches the full window only above 75; at 51..75 for widths >= 4096): D just inside the window
+// (2^20-121, 2^20-120: the match must be found and must round-trip), and just outside it (2^20-119, 2^20-60,
+// 2^20-1, 2^20: a match at that distance has no legal distance code - the encoder must not use it). Plus one
+// picture on the '1<<20 pixels' threshold with cheap content at Method 0.
+func e2eFarCases(seed uint64, tier string) []e2eFarCase {
+	ds := []int{e2eWindow - 1, e2eWindow, e2eWindow + 1, 1<<20 - 60, 1<<20 - 1, 1 << 20}
+	dims := [][2]int{{1024, 1100}, {2048, 560}, {1100, 1024}}
+	qs := []float32{76, 90, 100}
+	var cases []e2eFarCase
+	s := int(seed % 1000)
+	if tier == "thorough" {
+		for di, D := range ds {
+			// every D with every Quality (size rotated) and with every size (Quality rotated)
+			for qi, q := range qs {
+				d := dims[(di+qi+s)%3]
+				cases = append(cases, e2eFarCase{d[0], d[1], D, 0, []int{40, 256, 17, 200}[(di+qi+s)%4], q, (di + qi + s) % 3})
+			}
+			for wi := 1; wi < 3; wi++ {
+				d := dims[(di+1+wi+s)%3] // (the sizes the loop above did not pair with qs[1])
+				cases = append(cases, e2eFarCase{d[0], d[1], D, 0, []int{97, 23, 256}[(di+wi+s)%3], qs[1], (di + wi + s) % 3})
+			}
+			// width >= 4096: the full window is already searched at Quality 51..75
+			cases = append(cases, e2eFarCase{4096, 300, D, 0, 64, []float32{51, 60, 75}[(di+s)%3], (di + s) % 3})
+			// the whole head is noise (T = D), 256 colours and full colour
+			cases = append(cases, e2eFarCase{1024, 1100, D, D, 256, qs[(di+s)%3], 0}, e2eFarCase{1024, 1100, D, D, 0, qs[(di+s+1)%3], 1})
+		}
+	} else {
+		// quick: one picture just outside the window, one on a boundary value drawn by the seed
+		d0, d1 := dims[s%3], dims[(s+1)%3]
+		cases = append(cases,
+			e2eFarCase{d0[0], d0[1], 1<<20 - 60, 0, []int{40, 200, 97}[s%3], qs[s%3], s % 3},
+			e2eFarCase{d1[0], d1[1], []int{e2eWindow, e2eWindow + 1, 1<<20 - 1, 1 << 20, e2eWindow - 1}[s%5], 0, []int{64, 23, 256}[(s/3)%3], qs[(s+1)%3], (s + 1) % 3})
+	}
+	return cases
+}
+
+func e2eFarMatchLeg(rep *Report) {
+	for k := range e2eFarCases(rep.Seed, rep.Tier) {
+		e2eFarRun(rep, k)
+	}
+	// the '1<<20 pixels' threshold itself (pictures of 2^20 -/+ a few pixels), cheap content, Method 0
+	nT := 1
+	if rep.Tier == "thorough" {
+		nT = 1 << 20
+	}
+	for k := range DrawThresholdCases(rep.Seed, 0x0120, nT, e2eMegaFilter) {
+		e2eMegaRun(rep, k)
+	}
+}
+
+var e2eMegaFilter = ThresholdFilter{Units: []string{"pixels"}, MinValue: 1 << 20, MaxPixels: 1<<20 + 1<<12}
+
+// e2eFarRun runs far-match case k of the (seed, tier) list.
+func e2eFarRun(rep *Report, k int) {
+	s := int(rep.Seed % 1000)
+	c := e2eFarCases(rep.Seed, rep.Tier)[k]
+	r := NewRNG(rep.Seed, 0x01FA_0000+uint64(k))
+	if c.T == 0 {
+		c.T = c.w*c.h - c.D + 1000 + r.Intn(20000) // the noise band covers the repeated tail
+	}
+	img := e2eFarMatchImage(r, c.w, c.h, c.D, c.T, c.ncol)
+	o := &webp.EncoderOptions{Lossless: true, Quality: c.q, Method: c.m, Exact: r.Bool()}
+	desc := fmt.Sprintf("%dx%d/far-match period=%d (2^20%+d) noise=%d colours=%d q=%v m=%d exact=%v", c.w, c.h, c.D, c.D-(1<<20), c.T, c.ncol, c.q, c.m, o.Exact)
+	in := map[string]any{"op": "roundtrip-farmatch", "seed": rep.Seed, "tier": rep.Tier, "k": k, "w": c.w, "h": c.h, "period": c.D, "noise": c.T, "colors": c.ncol, "q": c.q, "m": c.m, "exact": o.Exact, "desc": desc}
+	procs := 0
+	if k%2 == 0 {
+		procs = []int{2, 3, 5, 7}[(k/2+s)%4]
+	}
+	n := e2eRoundtripNRGBA(rep, img, o, desc, in, procs)
+	rep.Count("class:far-match")
+	rep.Count(fmt.Sprintf("far-match:period=2^20%+d", c.D-(1<<20)))
+	rep.Count(fmt.Sprintf("far-match:q=%v", c.q))
+	rep.Eval(true, []byte(desc))
+	if k < 2 {
+		rep.Sample(map[string]any{"case": desc, "bytes": n})
+	}
+}
+
+// e2eMegaRun runs case k of the 2^20-pixel threshold draw.
+func e2eMegaRun(rep *Report, k int) {
+	nT := 1
+	if rep.Tier == "thorough" {
+		nT = 1 << 20
+	}
+	tc := DrawThresholdCases(rep.Seed, 0x0120, nT, e2eMegaFilter)[k]
+	r := NewRNG(rep.Seed, 0x01FB_0000+uint64(k))
+	kind := r.Intn(NumCheapClasses)
+	img := GenCheapImage(r, tc.W, tc.H, kind, AlphaNone)
+	o := &webp.EncoderOptions{Lossless: true, Quality: []float32{50, 76, 100}[r.Intn(3)], Method: 0, Exact: r.Bool()}
+	desc := fmt.Sprintf("%s %s q=%v m=0 exact=%v", cheapDesc(tc.W, tc.H, kind, AlphaNone), tc.String(), o.Quality, o.Exact)
+	in := map[string]any{"op": "roundtrip-threshold", "seed": rep.Seed, "tier": rep.Tier, "k": k, "w": tc.W, "h": tc.H, "cheap": kind, "q": o.Quality, "exact": o.Exact, "desc": desc}
+	e2eRoundtripNRGBA(rep, img, o, desc, in, 0)
+	CountThreshold(rep, tc)
+	rep.Eval(kind != CheapFlat, []byte(desc))
 }
 
 func isFlat(img *image.NRGBA) bool {
@@ -430,7 +724,7 @@ func anyNonOpaque(img image.Image) bool {
 
 // suiteC16: header queries agree with a full decode; container views agree with one another.
 func suiteC16(rep *Report) error {
-	rep.Rule = "inputs: encoder / muxer / animation-encoder outputs (seed corpus, plus fresh encodes: threshold-crossing files - widths 1023..4097 x heights 1..4 as lossy, lossy+alpha, lossless, animation, and pictures on the numeric thresholds of thresholds.go -, one non-opaque pixel at raster index 0 / 1 / each of the last 8 positions over sizes with pixel count mod 4 = 0..3, lossless with/without metadata and lossy, and random pictures over all alpha classes), hand-assembled well-formed containers (VP8X with/without ALPH incl. zero-length, odd/empty/unknown chunks, metadata before/after, flags over/under-stating), and mutations that Decode still accepts; for each accepted still: DecodeConfig, GetFeatures, image.DecodeConfig vs the decoded image (size, colour model, format name, alpha flag for package-written files); for well-formed files: GetFeatures / DecodeConfig / Demuxer / animation.DecodeBytes agree on canvas, animation flag, frame count, loop count; non-trivial = Decode accepted or the file is animated"
+	rep.Rule = "inputs: encoder / muxer / animation-encoder outputs (seed corpus, plus fresh encodes: threshold-crossing files - widths 1023..4097 x heights 1..4 as lossy, lossy+alpha, lossless, animation, and pictures on the numeric thresholds of thresholds.go -, one non-opaque pixel at raster index 0 / 1 / each of the last 8 positions over sizes with pixel count mod 4 = 0..3, lossless with/without metadata and lossy, and random pictures over all alpha classes), muxer-assembled extended stills and animations (AddFrame with ALPH-prefixed data; animations whose first frame is smaller than the canvas and / or at a non-zero offset), hand-assembled well-formed containers (VP8X with/without ALPH incl. zero-length, odd/empty/unknown chunks, metadata before/after, flags over/under-stating; animations of 1..3 frames of different sizes and codecs at offsets 0/2/4 on a canvas equal to or larger than their extent), every ALPH plane drawn from {all 255, all 0, all 254, one uniform value, 255 except one pixel, noise, gradient} x {raw, VP8L-compressed} x filter 0..3 x pre-processing bits (written by the package's own alpha encoder), and mutations that Decode still accepts; for each accepted still: DecodeConfig, GetFeatures, image.DecodeConfig vs the decoded image (size, colour model, format name, alpha flag for package-written files); for well-formed files: GetFeatures / DecodeConfig / Demuxer / animation.DecodeBytes agree on canvas, animation flag, frame count, loop count - for animations DecodeConfig and image.DecodeConfig must report the VP8X canvas, not the first frame; non-trivial = Decode accepted or the file is animated"
 	inputs, seeds := containerInputs(rep.Seed, rep.Tier)
 	_ = seeds
 	// freshly encoded files (package-written, so the alpha flag must cover every non-opaque decoded
@@ -495,6 +789,53 @@ func suiteC16(rep *Report) error {
 			enc(GenCheapImage(r, tc.W, tc.H, r.Intn(NumCheapClasses), []int{AlphaNone, AlphaGradient, AlphaSparse, AlphaBinary}[r.Intn(4)]), r.Bool(), r.Chance(1, 3), r)
 			CountThreshold(rep, tc)
 		}
+		// muxer-assembled files whose ALPH plane is drawn from the plane classes (all 255, all 0, all 254, one
+		// uniform value, 255 except one pixel, noise, gradient) in every ALPH encoding (raw, filters 1..3,
+		// pre-processing bits, VP8L-compressed): extended stills (AddFrame with ALPH-prefixed data, no options)
+		// and animations whose first frame is smaller than the canvas and / or sits at a non-zero offset
+		nm := 48
+		if rep.Tier == "thorough" {
+			nm = 1200
+		}
+		for i := 0; i < nm; i++ {
+			r := NewRNG(rep.Seed, 0x1630000+uint64(i))
+			sz := [][2]int{{1, 1}, {2, 3}, {5, 4}, {8, 8}, {13, 7}, {16, 16}, {17, 33}, {33, 9}}[r.Intn(8)]
+			w, h := sz[0], sz[1]
+			frame := func(w, h, cls, enc int) []byte {
+				vp8 := rawFrame(r, w, h, false, AlphaNone)
+				a, tags := e2eAlphPayload(r, w, h, cls, enc)
+				for _, t := range tags {
+					rep.Count("mux-fresh:alph:" + t)
+				}
+				return alphPrefixed(a, vp8)
+			}
+			m := mux.NewMuxer()
+			cls, enc := i%e2eNumPlaneClasses, (i/e2eNumPlaneClasses)%e2eNumAlphEncodings
+			kind := "mux-fresh"
+			if i%3 != 2 {
+				_ = m.AddFrame(frame(w, h, cls, enc), nil)
+			} else {
+				// animation: first frame w x h at (ox, oy), canvas larger than the first frame
+				ox, oy := 2*r.Intn(3), 2*r.Intn(3)
+				_ = m.AddFrame(frame(w, h, cls, enc), &mux.FrameOptions{Duration: 30, OffsetX: ox, OffsetY: oy, BlendMode: mux.BlendMode(r.Intn(2))})
+				w2, h2 := w+2*r.Intn(4), h+1+r.Intn(5)
+				if r.Bool() {
+					_ = m.AddFrame(rawFrame(r, w2, h2, true, AlphaBinary), &mux.FrameOptions{Duration: 40, DisposeMode: mux.DisposeMode(r.Intn(2))})
+				} else {
+					_ = m.AddFrame(frame(w2, h2, r.Intn(e2eNumPlaneClasses), r.Intn(e2eNumAlphEncodings)), &mux.FrameOptions{Duration: 40, OffsetX: 2 * r.Intn(2)})
+				}
+				if r.Chance(1, 3) {
+					m.SetCanvasSize(w2+ox+2*r.Intn(5), h2+oy+r.Intn(7))
+				}
+				m.SetLoopCount(r.Intn(4))
+			}
+			var mb bytes.Buffer
+			if err := m.Assemble(&mb); err == nil {
+				fresh = append(fresh, cInput{mb.Bytes(), kind})
+			} else {
+				rep.Count("mux-fresh:assemble-error")
+			}
+		}
 		inputs = append(fresh, inputs...)
 	}
 	accepted := 0
@@ -513,8 +854,8 @@ func suiteC16(rep *Report) error {
 			}()
 			img, derr = webp.Decode(bytes.NewReader(data))
 		}()
-		wellFormed := in.kind == "seed" || in.kind == "enc-fresh"
-		pkgWritten := in.kind == "seed" || in.kind == "enc-fresh"
+		wellFormed := in.kind == "seed" || in.kind == "enc-fresh" || in.kind == "mux-fresh"
+		pkgWritten := wellFormed
 		if derr == nil && img != nil && !isAnimatedFile(data) {
 			accepted++
 			cfg, cerr := webp.DecodeConfig(bytes.NewReader(data))
@@ -565,7 +906,7 @@ func suiteC16(rep *Report) error {
 	if rep.Tier == "thorough" {
 		nl = 20000
 	}
-	for _, in := range wellFormedLayouts(r, seeds, nl) {
+	for _, in := range wellFormedLayouts(r, seeds, nl, rep.Count) {
 		viewsAgree(rep, in.data, in.kind)
 		img, err := webp.Decode(bytes.NewReader(in.data))
 		if err == nil && !isAnimatedFile(in.data) {
@@ -612,12 +953,109 @@ func viewsAgree(rep *Report, data []byte, kind string) {
 	if ft.LoopCount != d.LoopCount() || a.LoopCount != d.LoopCount() {
 		add("loop-count", fmt.Sprintf("GetFeatures %d, demuxer %d, animation %d", ft.LoopCount, d.LoopCount(), a.LoopCount))
 	}
+	cfg, cerr := webp.DecodeConfig(bytes.NewReader(data))
 	if !ft.HasAnimation {
-		cfg, cerr := webp.DecodeConfig(bytes.NewReader(data))
 		if cerr != nil || cfg.Width != ft.Width || cfg.Height != ft.Height {
 			add("config-vs-features", fmt.Sprintf("DecodeConfig %dx%d err=%v, GetFeatures %dx%d", cfg.Width, cfg.Height, cerr, ft.Width, ft.Height))
 		}
+		return
 	}
+	// animations: every header query reports the CANVAS - the VP8X fields themselves, GetFeatures, DecodeConfig,
+	// image.DecodeConfig, the demuxer and the animation reader - whatever size and position the first frame has
+	xw, xh := e2eVP8XCanvas(data)
+	c2, name, err2 := image.DecodeConfig(bytes.NewReader(data))
+	if cerr != nil || err2 != nil || name != "webp" || cfg.Width != df.Width || cfg.Height != df.Height || c2.Width != df.Width || c2.Height != df.Height ||
+		cfg.Width != a.CanvasWidth || cfg.Height != a.CanvasHeight || (xw > 0 && (cfg.Width != xw || cfg.Height != xh)) {
+		add("config-vs-canvas", fmt.Sprintf("animation: DecodeConfig %dx%d (err=%v), image.DecodeConfig %dx%d (%q, err=%v); VP8X canvas %dx%d, demuxer %dx%d, animation.DecodeBytes %dx%d%s",
+			cfg.Width, cfg.Height, cerr, c2.Width, c2.Height, name, err2, xw, xh, df.Width, df.Height, a.CanvasWidth, a.CanvasHeight, e2eFirstFrameDesc(d)))
+	}
+	if ft.Width != df.Width || ft.Height != df.Height || (xw > 0 && (df.Width != xw || df.Height != xh)) {
+		add("features-vs-canvas", fmt.Sprintf("animation: GetFeatures %dx%d, VP8X canvas %dx%d, demuxer %dx%d%s", ft.Width, ft.Height, xw, xh, df.Width, df.Height, e2eFirstFrameDesc(d)))
+	}
+	if f0, err := d.Frame(0); err == nil {
+		if f0.Width < df.Width || f0.Height < df.Height {
+			rep.Count("anim:first-frame-smaller-than-canvas")
+		}
+		if f0.OffsetX != 0 || f0.OffsetY != 0 {
+			rep.Count("anim:first-frame-at-offset")
+		}
+	}
+	rep.Count("anim:config-vs-canvas-checked")
+}
+
+// e2eVP8XCanvas reads the canvas fields of a leading VP8X chunk by hand (0, 0 when the file has none).
+func e2eVP8XCanvas(b []byte) (int, int) {
+	if len(b) < 30 || string(b[12:16]) != "VP8X" {
+		return 0, 0
+	}
+	return 1 + int(b[24]) + int(b[25])<<8 + int(b[26])<<16, 1 + int(b[27]) + int(b[28])<<8 + int(b[29])<<16
+}
+
+func e2eFirstFrameDesc(d *mux.Demuxer) string {
+	f0, err := d.Frame(0)
+	if err != nil {
+		return ""
+	}
+	return fmt.Sprintf("; first frame %dx%d at (%d,%d)", f0.Width, f0.Height, f0.OffsetX, f0.OffsetY)
+}
+
+// ALPH plane classes and encodings (hand-assembled and muxer-assembled files draw from both).
+const (
+	e2ePlaneOpaque   = iota // all 255: a PRESENT plane that happens to be opaque everywhere
+	e2ePlaneZero            // all 0
+	e2ePlane254             // all 254
+	e2ePlaneUniform         // one random value
+	e2ePlaneOneHole         // 255 except one pixel (first / last / random position)
+	e2ePlaneNoise           // noise
+	e2ePlaneGradient        // horizontal ramp
+	e2eNumPlaneClasses
+)
+
+var e2ePlaneNames = []string{"all255", "all0", "all254", "uniform", "255-but-one", "noise", "gradient"}
+
+// encodings: method (0 raw, 1 VP8L) x filter 0..3 x pre-processing bit
+const e2eNumAlphEncodings = 16
+
+func e2eAlphPlane(r *RNG, w, h, cls int) []byte {
+	p := make([]byte, w*h)
+	u := byte(r.Next())
+	for i := range p {
+		switch cls {
+		case e2ePlaneOpaque, e2ePlaneOneHole:
+			p[i] = 255
+		case e2ePlaneZero:
+			p[i] = 0
+		case e2ePlane254:
+			p[i] = 254
+		case e2ePlaneUniform:
+			p[i] = u
+		case e2ePlaneNoise:
+			p[i] = byte(r.Next())
+		default:
+			p[i] = byte((i % w) * 255 / maxi(w-1, 1))
+		}
+	}
+	if cls == e2ePlaneOneHole {
+		p[[]int{0, len(p) - 1, r.Intn(len(p))}[r.Intn(3)]] = []byte{0, 1, 128, 254}[r.Intn(4)]
+	}
+	return p
+}
+
+// e2eAlphPayload: an ALPH chunk payload for a w x h plane of class cls in encoding enc (bit 0: VP8L-compressed,
+// bits 1-2: prediction filter 0..3, bit 3: pre-processing bits set), written by the package's own alpha encoder
+// (verifapi.AlphaEncodeInternal; it stores the filtered plane raw when compression does not pay).
+func e2eAlphPayload(r *RNG, w, h, cls, enc int) ([]byte, []string) {
+	plane := e2eAlphPlane(r, w, h, cls)
+	method, filter, pre := enc&1, (enc>>1)&3, enc&8 != 0
+	if w*h > 40000 {
+		method = 0 // (large planes: raw only)
+	}
+	out, _, err := verifapi.AlphaEncodeInternal(plane, w, h, method, filter, pre, r.Intn(7))
+	if err != nil || len(out) == 0 {
+		out = append([]byte{0}, plane...)
+		method, filter, pre = 0, 0, false
+	}
+	return out, []string{"plane=" + e2ePlaneNames[cls], fmt.Sprintf("enc=%s/filter%d", []string{"raw", "vp8l"}[int(out[0]&3)&1], (out[0]>>2)&3), fmt.Sprintf("pre-processing-bits=%d", out[0]>>4&3)}
 }
 
 type canvasWH struct{ cw, ch int }
@@ -637,9 +1075,13 @@ func goParserCanvas(data []byte) canvasWH {
 }
 
 // wellFormedLayouts assembles self-consistent containers (still canvas = image size, frames inside canvas,
-// ANIM before ANMF, exact RIFF size) that vary everything C16 lists as allowed.
-func wellFormedLayouts(r *RNG, seeds []Seed, n int) []cInput {
-	var vp8, vp8l, alph [][]byte
+// ANIM before ANMF, exact RIFF size) that vary everything C16 lists as allowed. ALPH chunks: zero-length, or a
+// plane drawn from the plane classes (all 255, all 0, all 254, one uniform value, 255 except one pixel, noise,
+// gradient) in every ALPH encoding (raw / VP8L-compressed x filters 0..3 x pre-processing bits). Animations: 1..3
+// frames, each with its own bitstream (sizes differ), offsets 0/2/4, canvas = extent of the frames or larger - so
+// the first frame is often smaller than the canvas and / or away from the origin.
+func wellFormedLayouts(r *RNG, seeds []Seed, n int, count func(string)) []cInput {
+	var vp8, vp8l [][]byte
 	for _, s := range seeds {
 		if !s.Still || len(s.Data) < 30 {
 			continue
@@ -655,8 +1097,6 @@ func wellFormedLayouts(r *RNG, seeds []Seed, n int) []cInput {
 				vp8 = append(vp8, pl)
 			case "VP8L":
 				vp8l = append(vp8l, pl)
-			case "ALPH":
-				alph = append(alph, pl)
 			}
 		}
 	}
@@ -667,31 +1107,96 @@ func wellFormedLayouts(r *RNG, seeds []Seed, n int) []cInput {
 		}
 		return (int(pl[6]) | int(pl[7])<<8) & 0x3fff, (int(pl[8]) | int(pl[9])<<8) & 0x3fff
 	}
+	type frameImg struct {
+		pl       []byte
+		lossless bool
+		w, h     int
+		alph     []byte // nil: no ALPH chunk
+		hasAlph  bool
+	}
+	// one image chunk (+ optional ALPH) of a random seed bitstream
+	pick := func(lossless bool) (frameImg, string) {
+		f := frameImg{lossless: lossless}
+		if lossless {
+			f.pl = vp8l[r.Intn(len(vp8l))]
+		} else {
+			f.pl = vp8[r.Intn(len(vp8))]
+		}
+		f.w, f.h = dims(f.pl, lossless)
+		tag := ""
+		if !lossless && r.Chance(1, 2) {
+			f.hasAlph = true
+			if r.Chance(1, 5) {
+				f.alph = []byte{}
+				tag = "+alph0"
+			} else {
+				// an ALPH payload of matching dimensions is needed for Decode
+				var tags []string
+				f.alph, tags = e2eAlphPayload(r, f.w, f.h, r.Intn(e2eNumPlaneClasses), r.Intn(e2eNumAlphEncodings))
+				for _, t := range tags {
+					count("layout-alph:" + t)
+				}
+				tag = "+alph"
+			}
+		}
+		return f, tag
+	}
+	imgChunks := func(f frameImg) []byte {
+		var b []byte
+		if f.hasAlph {
+			b = append(b, chunk("ALPH", f.alph)...)
+		}
+		if f.lossless {
+			b = append(b, chunk("VP8L", f.pl)...)
+		} else {
+			b = append(b, chunk("VP8 ", f.pl)...)
+		}
+		return b
+	}
 	var out []cInput
 	for i := 0; i < n; i++ {
 		lossless := r.Bool()
-		var img []byte
-		if lossless {
-			img = vp8l[r.Intn(len(vp8l))]
-		} else {
-			img = vp8[r.Intn(len(vp8))]
-		}
-		w, h := dims(img, lossless)
 		anim := r.Chance(1, 3)
 		flags := byte(0)
 		kind := "still"
-		var a []byte
-		withAlph := !lossless && r.Chance(1, 2)
-		if withAlph {
-			if r.Chance(1, 4) {
-				a = []byte{}
-				kind += "+alph0"
-			} else {
-				// an ALPH payload of matching dimensions is needed for Decode; raw alpha of w*h bytes
-				a = append([]byte{0}, bytes.Repeat([]byte{byte(r.Next())}, w*h)...)
-				kind += "+alph"
+		var frames []frameImg
+		offs := [][2]int{}
+		cw, ch := 0, 0
+		if anim {
+			kind = "anim"
+			flags |= 0x02
+			nf := 1 + r.Intn(3)
+			for k := 0; k < nf; k++ {
+				fl := lossless
+				if r.Chance(1, 3) {
+					fl = !fl // mixed codecs
+				}
+				f, _ := pick(fl)
+				frames = append(frames, f)
+				ox, oy := 2*r.Intn(3), 2*r.Intn(3)
+				offs = append(offs, [2]int{ox, oy})
+				cw, ch = maxi(cw, ox+f.w), maxi(ch, oy+f.h)
+				if f.hasAlph {
+					flags |= 0x10
+				}
 			}
-			flags |= 0x10
+			if r.Chance(1, 4) {
+				cw, ch = cw+r.Intn(4), ch+r.Intn(4) // canvas larger than the extent of the frames
+			}
+			if frames[0].w < cw || frames[0].h < ch {
+				count("layout-anim:first-frame-smaller-than-canvas")
+			}
+			if offs[0] != [2]int{0, 0} {
+				count("layout-anim:first-frame-at-offset")
+			}
+		} else {
+			f, tag := pick(lossless)
+			frames = append(frames, f)
+			kind += tag
+			cw, ch = f.w, f.h
+			if f.hasAlph {
+				flags |= 0x10
+			}
 		}
 		icc, exif, xmp := r.Chance(1, 3), r.Chance(1, 3), r.Chance(1, 3)
 		if icc {
@@ -708,24 +1213,6 @@ func wellFormedLayouts(r *RNG, seeds []Seed, n int) []cInput {
 			kind += "+flagskew"
 		}
 		var body []byte
-		cw, ch := w, h
-		nf := 1
-		offs := [][2]int{}
-		if anim {
-			kind = "anim"
-			flags |= 0x02
-			nf = 1 + r.Intn(3)
-			for k := 0; k < nf; k++ {
-				ox, oy := 2*r.Intn(3), 2*r.Intn(3)
-				offs = append(offs, [2]int{ox, oy})
-				if ox+w > cw {
-					cw = ox + w
-				}
-				if oy+h > ch {
-					ch = oy + h
-				}
-			}
-		}
 		body = append(body, chunk("VP8X", vp8xPayload(flags, cw, ch))...)
 		if icc {
 			body = append(body, chunk("ICCP", r.Bytes(r.Intn(7)))...)
@@ -734,36 +1221,24 @@ func wellFormedLayouts(r *RNG, seeds []Seed, n int) []cInput {
 			body = append(body, chunk("UNKN", r.Bytes(r.Intn(6)))...)
 			kind += "+unknown"
 		}
-		imgChunks := func() []byte {
-			var b []byte
-			if withAlph {
-				b = append(b, chunk("ALPH", a)...)
-			}
-			if lossless {
-				b = append(b, chunk("VP8L", img)...)
-			} else {
-				b = append(b, chunk("VP8 ", img)...)
-			}
-			return b
-		}
 		metaBefore := r.Bool()
 		if exif && metaBefore {
 			body = append(body, chunk("EXIF", r.Bytes(1+r.Intn(7)))...)
 		}
 		if anim {
 			body = append(body, chunk("ANIM", []byte{byte(r.Next()), byte(r.Next()), byte(r.Next()), byte(r.Next()), byte(r.Intn(5)), byte(r.Intn(2))})...)
-			for k := 0; k < nf; k++ {
+			for k, f := range frames {
 				p := append([]byte{}, le24(offs[k][0]/2)...)
 				p = append(p, le24(offs[k][1]/2)...)
-				p = append(p, le24(w-1)...)
-				p = append(p, le24(h-1)...)
+				p = append(p, le24(f.w-1)...)
+				p = append(p, le24(f.h-1)...)
 				p = append(p, le24(r.Intn(500))...)
 				p = append(p, byte(r.Intn(4)))
-				p = append(p, imgChunks()...)
+				p = append(p, imgChunks(f)...)
 				body = append(body, chunk("ANMF", p)...)
 			}
 		} else {
-			body = append(body, imgChunks()...)
+			body = append(body, imgChunks(frames[0])...)
 		}
 		if exif && !metaBefore {
 			body = append(body, chunk("EXIF", r.Bytes(1+r.Intn(7)))...)
